@@ -37,4 +37,19 @@ FirstAccepting(accepts) ==        \* accepts: sequence of BOOLEAN, one per candi
   IF \E i \in 1..Len(accepts) : accepts[i]
   THEN CHOOSE i \in 1..Len(accepts) : accepts[i] /\ \A j \in 1..(i - 1) : ~accepts[j]
   ELSE 0
+\* ---- the documented exception lattice (moclo/errors.py; docs/source/api/errors) ---------------------------------------
+\* class |-> the classes it must be an instance of, besides itself (library classes and the built-in mixins users catch)
+ErrorAncestors ==
+  [ MocloError       |-> {"Exception"},
+    InvalidSequence  |-> {"MocloError", "ValueError", "Exception"},
+    IllegalSite      |-> {"InvalidSequence", "MocloError", "ValueError", "Exception"},
+    AssemblyError    |-> {"MocloError", "RuntimeError", "Exception"},
+    DuplicateModules |-> {"AssemblyError", "MocloError", "RuntimeError", "Exception"},
+    MissingModule    |-> {"AssemblyError", "MocloError", "RuntimeError", "Exception"},
+    AssemblyWarning  |-> {"MocloError", "Warning", "Exception"},
+    UnusedModules    |-> {"AssemblyWarning", "MocloError", "Warning", "Exception"} ]
+\* the lattice is consistent: ancestors of an ancestor are ancestors; errors and warnings are disjoint families
+ASSUME \A c \in DOMAIN ErrorAncestors : \A a \in ErrorAncestors[c] \cap DOMAIN ErrorAncestors : ErrorAncestors[a] \subseteq ErrorAncestors[c]
+ASSUME \A c \in DOMAIN ErrorAncestors : ~({"AssemblyError", "AssemblyWarning"} \subseteq ErrorAncestors[c] \cup {c})
+ASSUME \A c \in DOMAIN ErrorAncestors : ~({"InvalidSequence", "AssemblyError"} \subseteq ErrorAncestors[c] \cup {c})
 =============================================================================
